@@ -432,7 +432,13 @@ uint32_t IPv6::calculate_headers_size() const {
 }
 
 void IPv6::write_header(const ext_header& header, OutputMemoryStream& stream) {
-    const uint8_t length = header.length_field() / 8;
+    uint8_t length = header.length_field() / 8;
+    // Unless the length field has been spoofed, derive it from what is actually
+    // written: type + length + data + padding, in 8 octet units, not counting the first
+    if (header.length_field() == header.data_size()) {
+        const size_t total_size = header.data_size() + sizeof(uint8_t) * 2 + get_padding_size(header);
+        length = static_cast<uint8_t>(total_size / 8 - 1);
+    }
     stream.write(header.option());
     stream.write(length);
     stream.write(header.data_ptr(), header.data_size());
